@@ -2,6 +2,7 @@ package actionlint
 
 import (
 	"fmt"
+	"sort"
 	"strings"
 )
 
@@ -88,8 +89,10 @@ func (rule *RuleWorkflowCall) checkWorkflowCallUsesLocal(call *WorkflowCall) {
 		return
 	}
 
-	// Validate inputs
-	for n, i := range m.Inputs {
+	// Validate inputs. Errors for missing inputs and secrets are all reported at the same position so
+	// iterate over sorted names not to depend on the iteration order of the maps.
+	for _, n := range sortedKeys(m.Inputs) {
+		i := m.Inputs[n]
 		if i != nil && i.Required {
 			if _, ok := call.Inputs[n]; !ok {
 				rule.Errorf(u.Pos, "input %q is required by %q reusable workflow", i.Name, u.Value)
@@ -116,7 +119,8 @@ func (rule *RuleWorkflowCall) checkWorkflowCallUsesLocal(call *WorkflowCall) {
 
 	// Validate secrets
 	if !call.InheritSecrets {
-		for n, s := range m.Secrets {
+		for _, n := range sortedKeys(m.Secrets) {
+			s := m.Secrets[n]
 			if s.Required {
 				if _, ok := call.Secrets[n]; !ok {
 					rule.Errorf(u.Pos, "secret %q is required by %q reusable workflow", s.Name, u.Value)
@@ -189,4 +193,13 @@ func isWorkflowCallUsesRepoFormat(u string) bool {
 	u = u[idx+1:] // Eat workflow path
 
 	return len(u) > 0
+}
+
+func sortedKeys[T any](m map[string]T) []string {
+	ks := make([]string, 0, len(m))
+	for k := range m {
+		ks = append(ks, k)
+	}
+	sort.Strings(ks)
+	return ks
 }
